@@ -119,8 +119,9 @@ pub assume_specification[i64::from_str_radix](s: &str, radix: u32) -> (r: Result
 #[verifier::external_body] pub fn empty_str() -> (r: &'static str) ensures r@ == Seq::<char>::empty() { "" }
 
 // ---- join
-/// `Array::val_iter()`: the sequence part in order, then the dictionary values (in HashMap order: unspecified — C10)
-pub uninterp spec fn sp_vals(a: Array) -> Seq<Val>;
+/// `Array::val_iter()` (proved in unit val_arrays): the numeric part in order, then the dictionary values in key order —
+/// a function of the array's CONTENT (C10)
+pub open spec fn sp_vals(a: Array) -> Seq<Val> { a.arr@ + vals_by_key(a.dict@) }
 pub uninterp spec fn sp_join(parts: Seq<Seq<char>>, d: Seq<char>) -> Seq<char>;     // Itertools::join
 impl Array {
     /// `self.val_iter().collect::<Vec<&Val>>()`
